@@ -168,7 +168,7 @@ CHECKS = {
             "6/C08"),
 }
 
-PENDING = {"C01"}  # built but unchanged-tree findings not yet triaged: not claimed until the quick tier is clean
+PENDING = set()  # built but unchanged-tree findings not yet triaged: not claimed until the quick tier is clean
 for _p in PENDING:
     CHECKS.pop(_p, None)
 
